@@ -82,6 +82,22 @@ def apiOp : Handler := fun j => do
   let (o, w) := run (rulesOf lang) lemma calls
   pure (outJson o (some w))
 
+def stepOf (j : Json) : Except String Step := do
+  let a ← j.getArr?
+  match a.toList with
+  | [Json.str "realize"] => pure .realize
+  | _ => do pure (.call (← callOf j))
+
+/-- `{"op":"hist","lang":..,"lemma":V,"steps":[["dOpt",[..]],["nat",V],["realize"],…]}` → `{"outs":[…],"w":n}` -/
+def histOp : Handler := fun j => do
+  let lang ← langOf j
+  let lemma ← match getOpt j "lemma" with
+    | none => pure none
+    | some v => do pure (some (← valOf v))
+  let steps ← (← getArr j "steps").toList.mapM stepOf
+  let (outs, t) := runHist (rulesOf lang) (DT.make lemma) steps
+  pure (Json.mkObj [("outs", Json.arr (outs.map (fun o => outJson o none)).toArray), ("w", toJson t.warnings)])
+
 def calOp : Handler := fun j => do
   let d : Date := ⟨← getNat j "y", ← getNat j "m", ← getNat j "d"⟩
   let n := d.next
@@ -108,6 +124,6 @@ def cellsOp : Handler := fun j => do
   pure (Json.mkObj [("cells", Json.arr (cells "natural" r.natural ++ cells "non_natural" r.nonNatural).toArray)])
 
 def ops : List (String × Handler) :=
-  [("date", dateOp), ("api", apiOp), ("cal", calOp), ("scan", scanOp), ("parse", parseOp), ("cells", cellsOp)]
+  [("date", dateOp), ("api", apiOp), ("hist", histOp), ("cal", calOp), ("scan", scanOp), ("parse", parseOp), ("cells", cellsOp)]
 
 end Pyrealb.Driver.DateOps
